@@ -140,6 +140,9 @@ for _p in ("C08", "C09", "C14", "C16", "C27", "C28"):
 _aug("C32", " + RP: TLC (MC_Devices) enumerates every history of <= 3/4 calls over a 22-call alphabet, checks C32 on every table, and each history is replayed on the real Simulator and validated by TLC",
      " MC_Devices enumerates every history of up to 3 (thorough: 4) calls over 22 calls (add/remove/mmap/munmap/read/write incl. occupied, non-I/O, stale and default cases), checks the statement of C32 on every reachable table, and prints each maximal history; the harness replays all 10 648 (234 256) histories on real simulators and TLC validates every recorded call with the same operators.")
 
+_aug("C10", " + TLC: MC_Interrupt (every placement of up to 2/3 requests of priorities 1/4/7 from two devices over every boundary of a program+handler: IntGate and transparency)",
+     " MC_Interrupt model-checks, inside the specification, a user program and a register-saving handler with up to 2 (thorough: 3) interrupt requests placed at every instruction boundary (competing at one boundary, arriving inside the handler, successive; program priority 0 and 4): IntGate on every step and equality of the final state with the uninterrupted run (13 097 distinct states for 2 requests).")
+
 def main():
     props = [json.loads(l) for l in open(os.path.join(ROOT, "properties.jsonl"))]
     done = sorted(check.CHECKS)
